@@ -669,6 +669,10 @@ def _precondition_holds(idx: Index, m: Module, fi: FuncInfo, du, conds, group: T
                 if isinstance(c, ast.Call) and _last(call_name(c)) == alt:
                     pos = _positive(e, c)
                     if pos == want:
+                        if _existential(e, c):
+                            # `any(pred(x) for x in xs)`: the predicate holds for SOME element only, while the rewrite re-routes
+                            # every element of the collection
+                            return False, f"`{src(c, 50)}` is only required of some element (`any(...)`), the rewrite applies to all of them"
                         if len(c.args) >= 2 and isinstance(c.args[0], ast.Name) and isinstance(c.args[1], ast.Name) and c.args[0].id == c.args[1].id:
                             return False, f"{alt}() is called with the same operand twice"
                         roles_ok = True
@@ -710,6 +714,19 @@ def _helper_requires(h: FuncInfo, alt: str) -> bool:
         if not ok:
             return False
     return True
+
+
+def _existential(e: ast.AST, target: ast.AST) -> bool:
+    """target sits in the element expression of a comprehension that is the argument of any(...)"""
+    cur = target
+    while cur is not e and cur is not None:
+        par = getattr(cur, "parent", None)
+        if isinstance(par, (ast.GeneratorExp, ast.ListComp, ast.SetComp)):
+            gp = getattr(par, "parent", None)
+            if isinstance(gp, ast.Call) and (call_name(gp) or "") == "any" and gp.args and gp.args[0] is par:
+                return True
+        cur = par
+    return False
 
 
 def _positive(e: ast.AST, target: ast.AST) -> bool:
